@@ -443,7 +443,9 @@ class float_converters(number_converters_base):
         return float_from_words(words=words, path=path)
 
     def _value_as_str(self, value):
-        return "%.10g" % value
+        # "+ 0.0" turns a negative zero into zero: "-0" would read back as the integer 0
+        # and print as "0" the next time
+        return "%.10g" % (value + 0.0)
 
 
 class numbers_converters_base(_check_value_base):
@@ -619,7 +621,9 @@ class floats_converters(numbers_converters_base):
         return float_from_number(number=number, words=words, path=path)
 
     def _value_as_str(self, value):
-        return "%.10g" % value
+        # "+ 0.0" turns a negative zero into zero: "-0" would read back as the integer 0
+        # and print as "0" the next time
+        return "%.10g" % (value + 0.0)
 
 
 class choice_converters:
